@@ -384,6 +384,12 @@ func MontStructured(m *big.Int) []V {
 		out = append(out, V{v, "inverse-structured"})
 	}
 
+	for _, v := range UnitDigitSingles(m) {
+		if v.X.Cmp(m) < 0 {
+			out = append(out, V{v.X, "unit-digit"}, V{oracle.FromMont(oracle.Limbs(v.X), m), "stored-unit-digit"})
+		}
+	}
+
 	return out
 }
 
@@ -861,6 +867,92 @@ func HardInversion(m *big.Int) []*big.Int {
 		v, ok := new(big.Int).SetString(h, 16)
 		if ok && v.Cmp(m) < 0 {
 			out = append(out, v)
+		}
+	}
+
+	return out
+}
+
+// UnitDigits returns the 64-bit digits d with d*c = +1 or -1 (mod 2^64) for the small constants c a hand-written
+// limb-by-limb routine multiplies by (2^256 mod m, the low limb of m, the Montgomery factor -m^-1, and the curve's small
+// coefficients): the low half of the partial product d*c is then 1 resp. all ones, which is where a carry test of the
+// form "sum < addend" goes wrong when a carry comes in from below.
+func UnitDigits(m *big.Int) []uint64 {
+	w := pow2(64)
+	seen := map[uint64]bool{}
+
+	var out []uint64
+
+	for _, c := range []*big.Int{
+		new(big.Int).Mod(new(big.Int).Mod(two256, m), w), new(big.Int).Mod(m, w),
+		bi(3), bi(7), bi(21), bi(977), bi(1771), bi(0x3d1), addI(pow2(32), 1),
+	} {
+		if c.Bit(0) == 0 {
+			continue
+		}
+
+		inv := new(big.Int).ModInverse(c, w)
+		for _, d := range []*big.Int{inv, new(big.Int).Sub(w, inv)} {
+			if !seen[d.Uint64()] {
+				seen[d.Uint64()] = true
+				out = append(out, d.Uint64())
+			}
+		}
+	}
+
+	return out
+}
+
+// UnitDigitTuples returns the 256-bit integers whose limbs are drawn from {0, 2^64-1, d} with at least one limb d, for
+// every unit digit d (see UnitDigits): a unit digit at every limb position with and without a carry arriving from the
+// limbs below and a carry-absorbing limb above. Values may be >= m.
+func UnitDigitTuples(m *big.Int) []V {
+	var out []V
+
+	for _, d := range UnitDigits(m) {
+		al := [3]uint64{0, ^uint64(0), d}
+
+		for idx := 0; idx < 81; idx++ {
+			var l [4]uint64
+
+			has := false
+			k := idx
+
+			for i := 0; i < 4; i++ {
+				l[i] = al[k%3]
+				has = has || k%3 == 2
+				k /= 3
+			}
+
+			if has {
+				out = append(out, V{oracle.FromLimbs(l), "unit-digit"})
+			}
+		}
+	}
+
+	return out
+}
+
+// UnitDigitSingles is the short form of UnitDigitTuples: one unit digit at one limb position, the limbs below it all
+// zero or all ones (a carry on its way up), the limbs above it zero.
+func UnitDigitSingles(m *big.Int) []V {
+	var out []V
+
+	for _, d := range UnitDigits(m) {
+		for i := 0; i < 4; i++ {
+			for _, below := range []uint64{0, ^uint64(0)} {
+				var l [4]uint64
+				for j := 0; j < i; j++ {
+					l[j] = below
+				}
+
+				l[i] = d
+				out = append(out, V{oracle.FromLimbs(l), "unit-digit"})
+
+				if i == 0 {
+					break
+				}
+			}
 		}
 	}
 
